@@ -1,5 +1,32 @@
-(* Correctness of the model-checker search strategies of Model/Search.v (bfs, dfs, all visited modes).
-   See the summary of the theorems at the end of the file. *)
+(* Correctness of the model-checker search strategies of Model/Search.v: bfs and dfs, every visited mode
+   (VFull, VPartial - identical to VFull in the model - and VDisabled), any amount of fuel.
+
+   Hypotheses (Section SearchCorrect): veq is an equivalence; the pure verdict [vk] and [expand] are compatible
+   with veq ("state-based predicates").  [collect_compat] is declared but no theorem needs it.
+   Notation below: run := run_strategy ... vm st fuel s0, start s0 := mark_visited (ss_empty) s0.
+
+   T1 search_sound         run (start s0) = ODone ss' -> every x in ss_checked ss' is Reach s0 and vk x in {VFinal,VGo}
+   T2 search_complete      run (start s0) = ODone ss' -> every Reach s0 state is veq-equal to a checked one
+   T3 search_error_sound   run (start s0) = OErr m s _ -> Reach s0 s /\ vk s = Ok (VErr m)
+   T4 search_verdict       run (start s0) = ODone _ -> no Reach s0 state has an error verdict
+   T5 collected_exact (+ collected_exact_err for the OErr outcome; general form collected_gen / CollInv)
+   T6 status_counts (final_status, ODone), status_counts_counted (counted_status, ODone and OErr),
+      status_counts_off (debug = false: statuses stay []); general forms status_gen / status_off_gen
+   T7 modes_agree_states, modes_agree_verdict, modes_agree (any two (vm, strategy, fuel) combinations),
+      bfs_dfs_same_states, bfs_dfs_same_verdict (instances)
+   T8 search_master (all modes, arbitrary initial state), staged_run / staged_run_error (visited modes, initial
+      state Closed), staged_run_disabled (VDisabled, any initial state), run_roots / run_roots_gen / union_of_roots
+   T9 is in Proofs/SearchShortest.v (bfs_shortest).
+
+   No statement had to be weakened.  Remarks on the model that the proofs made visible:
+   - all results are fuel independent: they speak about the outcomes ODone / OErr only (OFuel, OPanic: nothing claimed);
+   - VDisabled: ss_checked is the whole unfolded tree (with literal repetitions); ODone is only possible when
+     that tree is finite; completeness is then literal membership (staged_run_disabled);
+   - a staged run whose root is already in the visited cache checks the root a second time (ss_checked then has
+     two veq-equal entries); nothing else is re-checked.  The theorems are insensitive to that;
+   - T6 is stated with [final_status] (goal, else prune) for ODone; the invariant behind it counts
+     [counted_status] (nothing when the invariant fails), which is also valid for the OErr outcome;
+   - dfs evaluates enabled_ok before check_state: this only matters for OPanic. *)
 From Coq Require Import List NArith Bool Lia.
 From ASV Require Import Base.Util Model.Search.
 Import ListNotations.
@@ -1161,6 +1188,22 @@ Section SearchCorrect.
   Qed.
 
 End SearchCorrect.
+
+(* Sanity check (non-vacuity): a cyclic graph 0 -> [1;2], 1 -> [0;3], 2 -> [3], 3 -> [], 3 is a goal state. *)
+Module Example.
+  Definition ex_expand (n : N) : result (list N) :=
+    Ok (match n with 0 => [1; 2] | 1 => [0; 3] | 2 => [3] | _ => [] end).
+  Definition ex_goal (n : N) : option N := if (n =? 3) then Some 7 else None.
+  Definition ex_run (vm : vmode) (st : strategy) : outcome N :=
+    run_strategy N N.eqb ex_expand (fun _ => Ok tt) (fun _ => Ok false) (fun n => n =? 3)
+      (fun _ => None) ex_goal (fun _ => None) true vm st 20 0 (mark_visited N N.eqb vm (ss_empty N) 0).
+  Definition summary (o : outcome N) : option (list N * list (N * N) * list N) :=
+    match o with ODone ss => Some (ss_checked ss, ss_statuses ss, ss_collected ss) | _ => None end.
+  Goal summary (ex_run VFull Bfs) = Some ([3; 2; 1; 0], [(7, 1)], [3])
+       /\ summary (ex_run VPartial Dfs) = Some ([2; 3; 1; 0], [(7, 1)], [3])
+       /\ ex_run VDisabled Bfs = OFuel /\ ex_run VDisabled Dfs = OFuel.
+  Proof. vm_compute. auto. Qed.
+End Example.
 
 Print Assumptions search_sound.
 Print Assumptions search_complete.
